@@ -163,7 +163,7 @@ func runSchedule(t *testing.T, p *program, prefix []int) (tr trace) {
 		s := &coopSched{yield: make(chan int)}
 		csync.VerifCoopHook = s
 		defer func() { csync.VerifCoopHook = nil }()
-		obj := newObject(p.kind)
+		obj := newCoopObject(p.kind)
 		logs := map[*cthread]*[]string{}
 		e := &env{base: time.Now(), curLog: func() *[]string {
 			if logs[s.cur] == nil {
@@ -171,9 +171,38 @@ func runSchedule(t *testing.T, p *program, prefix []int) (tr trace) {
 			}
 			return logs[s.cur]
 		}}
+		// a scheduling point that is not a lock of the object under test: a private mutex taken for reading
+		var gateMu csync.CoopRWMutex
+		e.gate = func() { gateMu.RLock(); gateMu.RUnlock() }
+		curID := func() int {
+			if s.cur == nil {
+				return 9
+			}
+			return s.cur.id
+		}
+		e.boundary = func(ret, nextOp string) {
+			id := curID()
+			s.events = append(s.events, fmt.Sprintf("r%d:%s", id, ret))
+			if t := s.cur; t != nil {
+				t.atOpStart = true
+				s.yield <- t.id
+				<-t.wake
+				if s.aborted {
+					panic(abortRun{})
+				}
+				t.atOpStart = false
+				t.firstAcq = true
+			}
+			s.events = append(s.events, fmt.Sprintf("c%d:%s", id, nextOp))
+		}
 		run := func(id int, op string) {
-			s.events = append(s.events, fmt.Sprintf("c%d:%s", id, op))
-			res := obj.exec(strings.Split(op, ":"), e)
+			f := strings.Split(op, ":")
+			name := op
+			if h, ok := obj.(historyOp); ok {
+				name = h.histOp(f)
+			}
+			s.events = append(s.events, fmt.Sprintf("c%d:%s", id, name))
+			res := obj.exec(f, e)
 			s.events = append(s.events, fmt.Sprintf("r%d:%s", id, res))
 		}
 		for _, op := range p.pre {
